@@ -366,9 +366,10 @@ Theorem reset_mark_bypass_refuted :
    sp_offsets rb_R 0 = [33; 81; 126] /\ map rec_size (firstn 4 rb_R) = [12; 21; 12; 12] /\
    match nth 3 rb_R RReset with RSep crc len => negb (crc =? 0) && (len =? 36) | _ => false end = true) /\
   length rb_X' = 36%nat /\ scan rb_L' = (126, 89) /\
-  rb_view (recover true 1 0 rb_L' rb_main) = (VOk, [AWrite 5 [3]], 0, 3) /\
+  (reset_prefix_verified = false -> rb_view (recover true 1 0 rb_L' rb_main) = (VOk, [AWrite 5 [3]], 0, 3)) /\
+  (reset_prefix_verified = true -> fst (replay_ops true 1 0 rb_L') = VCorrupt) /\      (* with fixes/wal-reset-prefix-verified.diff *)
   rb_view (recover true 1 0 rb_log rb_main) = (VOk, [AWrite 0 [1]; AWrite 1 [2;2;2;2]; AWrite 5 [3]], 1, 3).
-Proof. vm_compute. repeat split; reflexivity. Qed.
+Proof. vm_compute. repeat split; try reflexivity; intros H; first [reflexivity | discriminate H]. Qed.
 
 (* ---- the first escape is real too, and needs no collision: the stored checksums are not covered by anything, and 0
    means "not checked".  Same log; 9 bytes changed: the checksum field of the second segment header (4 bytes -> 0), the
